@@ -20,6 +20,8 @@ stage lookup     binary, ramps +-{0.1, 5, 100, 3000} K/h, hold-ramp-hold, up-dow
                  maxNonIsothermalDT {1, 10} x iterator x phases
                  O3  at every recorded step n and for every phase the temperature the tables in force were computed at is within
                      maxTempChange of pData.temperature[n]  (also evaluated on every binary run of the other stages)
+stage real       the same O1/O3 on the Al-Zr pycalphad backend (conformance of the analytic stand-in): the table temperature is
+                 read off an independently tabulated planar solvus (0.05 K grid of direct thermodynamic queries)
 stage diffusion  SinglePhaseModel / HomogenizationModel x (constant | (hours, K) | field T(z, t)) x route x iterator x elements
                  O4  every temperature that reaches the thermodynamic environment for node i in an evaluation at time t is
                      schedule(z_i, t) bit for bit; an evaluation happens at every accepted step's start time; routes give
@@ -64,6 +66,21 @@ def prepare():
     from kawin.diffusion.DiffusionParameters import TemperatureParameters as DiffTemperatureParameters
     from kawin.diffusion.HomogenizationParameters import HomogenizationParameters
     from mc import precip, synth_thermo as st, diff_env
+    # real backend for the conformance stage (Al-Zr, as in kawin/tests/test_precipitation.py), built once in the parent and
+    # inherited by the workers, together with its planar solvus x_e(T) on a 0.05 K grid (independent of the precipitation model:
+    # direct queries of the thermodynamics object) that is used to read a table temperature off a recorded xEqAlpha
+    from kawin.tests.datasets import ALZR_TDB
+    from kawin.thermo import BinaryThermodynamics
+    th = BinaryThermodynamics(ALZR_TDB, ['AL', 'ZR'], ['FCC_A1', 'AL3ZR'], drivingForceMethod='tangent')
+    th.setDFSamplingDensity(2000)
+    th.setEQSamplingDensity(500)
+    th.setDiffusivity(lambda T: 0.0768 * np.exp(-242000 / (8.314 * T)), 'FCC_A1')
+    Tg = np.arange(REAL_T0 - 8.0, REAL_T0 + 16.0, 0.05)
+    xg = np.array([float(th.getInterfacialComposition(T, 0, precPhase='AL3ZR')[0]) for T in Tg])
+    if not np.all(np.diff(xg) > 0):
+        raise RuntimeError('Al-Zr solvus grid is not strictly increasing: the table temperature cannot be read off xEqAlpha')
+    th.clearCache()
+    _REAL.update(therm=th, Tg=Tg, xg=xg)
 
 
 # ----------------------------------------------------------------------------------------------------------
@@ -448,6 +465,67 @@ def run_lookup(case):
 
 
 # ----------------------------------------------------------------------------------------------------------
+# stage real: conformance of O1/O3 on the Al-Zr pycalphad backend
+
+REAL_T0 = 723.15
+_REAL = {}
+
+
+def run_real(case):
+    bad = Viol()
+    th = _REAL['therm']
+    sched = Sched(case['spec'])
+    tag = 'Al-Zr it=%s maxTempChange=%g schedule=%s' % (case['it'], case['mtc'], case['spec'])
+    th.clearCache()
+    m = PrecipitateModel(phases=['AL3ZR'], elements=['ZR'])
+    m.setPBMParameters(cMin=1e-10, cMax=1e-8, bins=75, minBins=50, maxBins=100)
+    m.setInitialComposition(4e-3)
+    m.setTemperature(*sched.args)
+    m.setInterfacialEnergy(0.1)
+    a = 0.405e-9
+    m.setVolumeAlpha(a ** 3, VolumeParameter.ATOMIC_VOLUME, 4)
+    m.setVolumeBeta(a ** 3, VolumeParameter.ATOMIC_VOLUME, 4)
+    m.setNucleationDensity(grainSize=1, dislocationDensity=1e15)
+    m.setNucleationSite('dislocations')
+    m.setConstraints(dtScale=0.05, maxTempChange=case['mtc'])
+    m.setThermodynamics(th)
+    mon = Mon(m, False, 4000)
+    err = None
+    try:
+        m.solve(case['tf'], solverType=SolverType.EXPLICITEULER if case['it'] == 'euler' else SolverType.RK4, maxDtFrac=0.01)
+    except precip.StepLimit:
+        err = 'StepLimit'
+    except Exception as e:
+        err = type(e).__name__
+        bad('C13/exception/%s/real-backend' % err, '%s: %s: %s' % (tag, err, e))
+    d = m.pData
+    run = {'model': m}
+    n = check_record(run, [(0, sched)], lambda sg, msg: bad(sg + '/route=setter/real-backend', msg), tag)
+    # O3: table temperature read off the solvus grid (linear interpolation on a 0.05 K grid of a smooth curve whose relative
+    # second difference is 3e-7 per grid step: error < 1e-4 K; solver noise of the equilibrium itself < 1e-6 relative = 2e-5 K);
+    # tolerance 0.02 K
+    xe = d.xEqAlpha[:, 0, 0]
+    inside = (xe >= _REAL['xg'][0]) & (xe <= _REAL['xg'][-1])
+    Tt = np.interp(xe, _REAL['xg'], _REAL['Tg'])
+    dev = np.abs(Tt - d.temperature)
+    if not np.all(inside):
+        k = int(np.argmax(~inside))
+        bad('C13/lookup-table-stale/it=%s' % case['it'], '%s: row %d: xEqAlpha=%r is outside the solvus between %.2f and %.2f K'
+            % (tag, k, float(xe[k]), _REAL['Tg'][0], _REAL['Tg'][-1]))
+    elif np.any(dev > case['mtc'] + 0.02):
+        k = int(np.argmax(dev > case['mtc'] + 0.02))
+        bad('C13/lookup-table-stale/it=%s' % case['it'],
+            '%s: row %d (t=%.6g s, T=%.4f K): recorded planar equilibrium composition %r belongs to %.4f K on the Al-Zr solvus, %.4f K away; '
+            'maxTempChange=%g' % (tag, k, float(d.time[k]), float(d.temperature[k]), float(xe[k]), float(Tt[k]), float(dev[k]), case['mtc']))
+    changes = int(np.sum(np.diff(xe) != 0))
+    span = float(np.max(d.temperature) - np.min(d.temperature))
+    return {'viol': bad.v, 'states': n, 'transitions': max(n - 1, 0), 'steplimit': err == 'StepLimit',
+            'outcome': 'span%s%g/table-changes=%s%s' % ('>' if span > case['mtc'] else '<=', case['mtc'], _bucket(changes), ('/' + err) if err else ''),
+            'nontrivial': span > case['mtc'] and err is None,
+            'info': {'steps': int(d.n), 'max_table_offset_K': float(np.max(dev)), 'table_changes': changes, 'final_volFrac': float(d.volFrac[-1, 0])}}
+
+
+# ----------------------------------------------------------------------------------------------------------
 # stage diffusion
 
 L_MESH = 1.0e-3
@@ -745,6 +823,24 @@ def run(ctx):
                         cases.append({'model': model, 'els': els, 'N': N, 'it': it, 'spec': spec, 'nsteps': 12.5})
     ctx.product_run('diffusion', 'checks.c13:run_diff', cases)
 
+    # --- stage real (Al-Zr) ------------------------------------------------------------------------------------
+    rspecs = [({'form': 'fn', 'fn': 'ramp', 'T0': REAL_T0, 'rate': 14.4}, 2000.0),
+              ({'form': 'fn', 'fn': 'ramp', 'T0': REAL_T0 + 8.0, 'rate': -14.4}, 2000.0),
+              ({'form': 'array', 'hours': [0.0, 0.3, 0.6], 'temps': [REAL_T0, REAL_T0 + 7.0, REAL_T0]}, 2160.0)]
+    if not quick:
+        rspecs += [({'form': 'fn', 'fn': 'ramp', 'T0': REAL_T0, 'rate': 1.44}, 20000.0),
+                   ({'form': 'fn', 'fn': 'saw', 'T0': REAL_T0, 'amp': 7.0, 'period': 1500.0}, 3000.0)]
+    cases = []
+    for spec, tfr in rspecs:
+        for mtc in [1.0, 5.0]:
+            for it in its:
+                if quick and it == 'rk4' and not (spec.get('rate') == 14.4 and mtc == 1.0):
+                    continue
+                cases.append({'spec': spec, 'tf': tfr, 'mtc': mtc, 'it': it})
+    res = ctx.product_run('real', 'checks.c13:run_real', cases, chunksize=1)
+    if any(r.get('steplimit') for r in res):
+        caps.append('real: step limit hit')
+
     for c in caps:
         ctx.cap(c)
     ctx.bounds = {'schedule': {'schedules': [Sched(s).label() for s in schedule_specs(tf, quick)], 'systems': systems, 'phases': nphs,
@@ -756,4 +852,6 @@ def run(ctx):
                   'diffusion': {'models': ['single', 'homog'], 'elements': ['bin', 'tern'], 'N': [3, 7] if quick else [2, 3, 5, 9],
                                 'schedules': ['const', 'array4', 'array2-clamped', 'field+', 'field-'], 'routes': DIFF_ROUTES,
                                 'iterators': its},
+                  'real (Al-Zr)': {'schedules': [Sched(sp).label() + ' ' + str(sp.get('rate', sp.get('temps', sp.get('amp')))) for sp, _ in rspecs],
+                                   'maxTempChange': [1.0, 5.0], 'iterators': its},
                   'horizon_steps': MAX_STEPS}
